@@ -425,6 +425,9 @@ func (s *Lexer) readBlockString() (Token, error) {
 
 	var buf bytes.Buffer
 
+	// the token is reported at its opening quotes, whatever line the string ends on
+	startLine, startLineStartRunes := s.line, s.lineStartRunes
+
 	// skip the opening quote
 	s.start += 3
 	s.startRunes += 3
@@ -454,6 +457,8 @@ func (s *Lexer) readBlockString() (Token, error) {
 				t, err := s.makeValueToken(BlockString, blockStringValue(buf.String()))
 				t.Pos.Start -= 3
 				t.Pos.End += 3
+				t.Pos.Line = startLine
+				t.Pos.Column = t.Pos.Start - startLineStartRunes + 1
 				s.end += quoteCount
 				s.endRunes += quoteCount
 				return t, err
